@@ -6,6 +6,9 @@ use crate::macsuites::*;
 use crate::util::*;
 
 pub fn eval(op: &str) -> String {
+    if let Some(r) = crate::adevgen::eval_dev_any(op) {
+        return r;
+    }
     let w: Vec<&str> = op.split_whitespace().collect();
     if w.len() == 4 && w[1] == "next" {
         let last: Option<u32> = w[2].parse().ok();
@@ -47,17 +50,28 @@ pub fn run(tier: &str, seed: u64, dir: &str) {
     let mut lasts: Vec<Option<u32>> = vec![None];
     let centres: [u64; 8] = [0, 0x8000, 0xffff, 0x1_0000, 0x7fff_0000, 0xfffe_ffff, 0xffff_0000, 0xffff_ffff];
     for c in centres {
-        let span: i64 = if thorough { 70_000 } else { 24 };
-        let step: i64 = if thorough { 1 } else { 1 };
+        // thorough: every value within +-1000 of the centre plus a stride of 97 out to +-70000
+        // (each `last` costs 65536 evaluations on both sides)
+        let span: i64 = if thorough { 1000 } else { 24 };
         let mut d = -span;
         while d <= span {
             let v = c as i64 + d;
             if (0..=0xffff_ffffi64).contains(&v) {
                 lasts.push(Some(v as u32));
             }
-            d += step;
+            d += 1;
         }
-        if !thorough {
+        if thorough {
+            let mut d = -70_000i64;
+            while d <= 70_000 {
+                let v = c as i64 + d;
+                if (0..=0xffff_ffffi64).contains(&v) {
+                    lasts.push(Some(v as u32));
+                }
+                d += 97;
+            }
+        }
+        {
             for d in [-70_000i64, -16_385, -16_384, -16_383, 16_383, 16_384, 16_385, 65_535, 65_536, 70_000] {
                 let v = c as i64 + d;
                 if (0..=0xffff_ffffi64).contains(&v) {
@@ -96,5 +110,7 @@ pub fn run(tier: &str, seed: u64, dir: &str) {
             sink.case(&op, &eval(&op), "frame-orderings", true);
         }
     }
-    sink.finish(dir, "next_fcnt_down: one digest per `last` value over all 65536 wire values (last = none, every value within +-70000 of 0, 0x8000, 0xFFFF, 0x10000, 0x7FFF0000, 0xFFFEFFFF, 0xFFFF0000, 2^32-1 in thorough; +-24 plus the gap boundaries in quick; plus random); MAC histories with sessions whose downlink counter sits at 16-/32-bit boundaries, mixing fresh, replayed, reordered, far-future, bit-flipped, wrong-key and oversized frames in RX1/RX2/RXC. Non-trivial = every case.", false, serde_json::json!({}));
+    // device level: both front-ends with the scripted radio (see adevgen::add_dev_classes)
+    crate::adevgen::add_dev_classes("C05", &mut rng, &mut sink, thorough, eval);
+    sink.finish(dir, "next_fcnt_down: one digest per `last` value over all 65536 wire values (last = none, every value within +-1000 of 0, 0x8000, 0xFFFF, 0x10000, 0x7FFF0000, 0xFFFEFFFF, 0xFFFF0000, 2^32-1 plus a stride of 97 out to +-70000 in thorough; +-24 in quick; the gap boundaries +-16383..16385, +-65535/65536 in both; plus random); MAC histories with sessions whose downlink counter sits at 16-/32-bit boundaries, mixing fresh, replayed, reordered, far-future, bit-flipped, wrong-key and oversized frames in RX1/RX2/RXC. Non-trivial = every case.", false, serde_json::json!({}));
 }
